@@ -59,6 +59,14 @@ def jsonable(o):
     return repr(o)
 
 
+def exc_sig(e):
+    """categorical description of an exception for violation signatures"""
+    import re
+
+    msg = re.sub(r"[0-9]+(\.[0-9]+)?", "#", str(e))[:70]
+    return dict(exc=type(e).__name__, msg=msg)
+
+
 class Rec:
     """Per-unit recorder (picklable)."""
 
